@@ -144,6 +144,17 @@ def patFsyncAcrossRename (st : St) (op : Op) : Bool :=
   | .syncData s => chk s
   | _ => false
 
+/-- F-11: `sync_dir` of the *source* directory flushes a pending cross-directory rename: the inode
+    moves to the new name but the new name never enters `synced_entries` — not even when the
+    destination directory is synced later, because the rename is no longer pending then -/
+def patSyncSourceOfCrossRename (st : St) (op : Op) : Bool :=
+  match op with
+  | .syncDir d =>
+    dirExists st.fs d && st.fs.pending.any fun o => match o with
+      | .rename s t => isChildOf s d && !(isChildOf t d)
+      | _ => false
+  | _ => false
+
 def opSlot : Op → Option Nat
   | .writeAt s _ _ => some s | .readAt s _ _ => some s | .write s _ => some s | .read s _ => some s
   | .seek s _ _ => some s | .setLen s _ => some s | .syncAll s => some s | .syncData s => some s
@@ -199,6 +210,11 @@ def patternsAt (st : St) (sp : Spec) (op : Op) : List Taint :=
   ++ mk 7 (patRmdirRenamedIn st op) rmdirExtra
   ++ mk 9 (patCreateOverDir st op) []
   ++ mk 10 (patFsyncAcrossRename st op) partners
+  ++ mk 11 (patSyncSourceOfCrossRename st op) (match op with
+      | .syncDir d => st.fs.pending.flatMap fun o => match o with
+          | .rename s t => if isChildOf s d && !(isChildOf t d) then [s, t] else []
+          | _ => []
+      | _ => [])
   ++ mk 8 (patStaleHandle sp op st) (match opSlot op with
       | some sl => match sGetSlot sp.l sl with
         | some sh => sp.l.ents.filterMap fun kv => if kv.2 == .file sh.fid then some kv.1 else none
